@@ -185,7 +185,7 @@ Qed.
 Lemma sys_step_inv2 s e : Inv s -> Inv2 s -> Inv2 (sys_step' s e).
 Proof.
   intros [Hsrv Hn] [H2 Hres].
-  destruct e as [i ops|i avoid wst|i g|i|i g]; cbn [sys_step].
+  destruct e as [i ops|i avoid wst|i g|i|i g|fops]; cbn [sys_step].
   - destruct (nodes s !! i) as [[r [x|]]|] eqn:Ei; try (split; assumption).
     split; [|exact Hres]. cbn [srv set_node nodes].
     apply Forall_insert; [exact H2|]. exact I.
@@ -219,6 +219,8 @@ Proof.
     split; [|exact Hres]. cbn [srv nodes].
     apply Forall_insert; [|exact I].
     eapply Forall_impl; [exact H2|]. intros n. apply node_inv2_grows. exact S3.
+  - split; [|exact Hres]. cbn [srv nodes chain].
+    eapply Forall_impl; [exact H2|]. intros n. apply node_inv2_grows. right. eexists. reflexivity.
 Qed.
 
 Lemma Inv2_init n : Inv2 (sys0 n).
@@ -231,7 +233,7 @@ Proof.
   cbn [wf_history] in Hwf. apply andb_true_iff in Hwf. destruct Hwf as [He Hh].
   apply IH; [|apply sys_step_inv2; assumption|exact Hh].
   apply sys_step_inv; [exact HI|].
-  destruct e; try exact I. destruct (nodes s !! i) as [[r [x|]]|]; auto.
+  destruct e; try exact I; [|exact He]. destruct (nodes s !! i) as [[r [x|]]|]; auto.
 Qed.
 
 Theorem no_out_of_sync n h i r :
